@@ -217,6 +217,10 @@ def hStep? : Sexp → Option (HStep × List String)
     else none
   | _ => none
 
+def hasDupKeys : List String → Bool
+  | [] => false
+  | k :: ks => ks.contains k || hasDupKeys ks
+
 /-- every query of a Hash: receiver with its index cached, text, whether a query faulted -/
 def hashObs (h : H) (uni : List String) : H × String × Bool :=
   let h1 := (h.valueIndex id).1
@@ -312,7 +316,8 @@ def runHash (steps : List HStep) (uni : List String) : String := Id.run do
       match pool[i]? with
       | none => res := "bad-ref"
       | some (h, m) =>
-        if m then res := "skip" else
+        -- sort.Sort is not stable: a hash holding two equal keys is not sorted (same rule as the harness)
+        if m || hasDupKeys h.keys then res := "skip" else
         pool := pool.push (h.sort (fun x y => decide (x ≤ y)), false); res := "sort"; made := some (pool.size - 1)
     | .mapKeys i k =>
       match pool[i]? with
